@@ -518,28 +518,31 @@ class Check(PropertyCheck):
     assumptions = ['decorators are the builtin names, unshadowed; other decorators return their argument unchanged',
                    'calls on right-hand sides return plain data values; names of builtin classes are not rebound']
     manifest = {
-        'text': ('Theorems over Model/Builder.v (ModuleVistor restricted to the MiniPy statement language, with addObject/handleDuplicate, '
-                 'Class.find, currentAttr, is_exception and the instance-variable post-processing) against the independent Spec/PyBind.v '
-                 '(CPython binding semantics of the subset, validated against a real CPython import on every run): in the module and in every '
-                 'class namespace the documented keys are pairwise distinct, contain every definition Python binds and nothing else except '
-                 'instance variables (C03_names_agree_partial, C03_names_agree_module_partial, C03_classes_reached_partial); kind, is_async '
-                 'and docstring of functions/methods/class methods/static methods (decorator and old-style wrapping)/properties/classes agree, '
-                 'EXCEPTION iff subclass of BaseException for module-level classes (C03_kinds_agree_partial, C03_docstring_partial, '
-                 'C03_module_docstring); attribute docstrings follow currentAttr (C03_docstring_attribute, _not_after_def/_class/_augassign); '
-                 '_annotation_for_value is sound for every literal value (C03_infer_type_sound, _empty_bare, _bool_not_int). Refuted on the '
-                 'current tree, with witnesses and known-finding entries: class variable shadowing an inherited method, stale type after '
-                 'tuple unpacking; repaired in /repo and now proved (old witnesses kept as _old_refuted): string after a property (fbfbc45), '
-                 'property assigned through self (76cecbe), ExceptionGroup/BaseExceptionGroup/EncodingWarning bases (7fd5e3f). Tie: '
-                 'doc_walk vs the real builder on every sequence of <= 2 (quick) / 3 (thorough) statement templates and on random packages; '
-                 'oracle = pydoctor build vs CPython import of the same generated packages.'),
+        'text': ('Theorems over Model/Builder.v (ModuleVistor restricted to the MiniPy statement language: def/class with decorators, dotted and '
+                 'imported base classes, assignments, string statements, if/try/with/for/while, imports; with addObject/handleDuplicate, '
+                 'Class.find, currentAttr, expandName over enclosing scopes and the import map, is_exception and the instance-variable '
+                 'post-processing) against the independent Spec/PyBind.v (CPython binding semantics of the subset, validated against a real '
+                 'CPython import on every run). In the module and in every class namespace: documented keys pairwise distinct = the definitions '
+                 'Python binds + the instance variables (C03_names_agree_partial, _module_partial, C03_classes_reached_partial); which self.x '
+                 'assignments create instance variables, exactly (C03_instance_variables_partial, C03_class_value_ivars); kind, is_async, docstring '
+                 'of functions/methods/class/static methods (decorator, old-style wrapping and re-wrapping)/properties/classes, EXCEPTION iff subclass of '
+                 'BaseException at any nesting depth and through bases imported from another module (C03_kinds_agree_partial, C03_docstring_partial, '
+                 'C03_module_docstring); attribute docstrings follow currentAttr (C03_docstring_attribute, _not_after_def/_class/_augassign); the '
+                 'literal remembered for a variable is the one Python bound, its stored annotation is the inferred one and denotes the type of the '
+                 'value (C03_infer_type_program_partial, C03_infer_type_sound, _empty_bare, _bool_not_int). Guards are semantic and exact for the two '
+                 'known findings (py_exec_names: class variable shadowing an inherited method; py_exec_strict: unpacking into a name holding a literal), '
+                 'with witnesses; three repaired defects kept as _old_refuted/_fixed. Tie: doc_walk vs the real builder on every sequence of <= 2 (quick) / '
+                 '3 (thorough) statement templates and on random multi-module packages (imports resolved through the model of the imported module); '
+                 'oracle = pydoctor build vs CPython import of the same packages, variable docstrings against the generator ground truth.'),
         'note': ('Variable docstrings are compared with the generator ground truth (string immediately after the assignment in the same '
                  'suite; after def/class/string: nobody); positions after pass/compound statements/tuple unpacking are left unjudged. '
                  'Partial: bindings in else/except/finally suites and untaken ifs, aliases `x = y`, annotations without value, rebinding a '
-                 'function or class by a plain assignment, `x = property(f)`, setter/deleter/overload decorators are outside the agreed subset '
-                 '(py_exec = None); CLASS/EXCEPTION is proved for module-level classes only; imported base classes are checked by the oracle '
-                 'only. Trusted: Coq kernel, translator gen_c03.py, extraction + driver, harness and pretty-printer, cleandoc oracle.'),
-        'technique': 'Coq proof (simulation invariant between the builder walk and CPython binding semantics; induction on literal values) '
-                     '+ regenerated tables + two-sided correspondence + differential oracle against CPython',
+                 'function or class by a plain assignment, `x = property(f)`, setter/deleter/overload decorators, base-class names that an enclosing '
+                 'class body binds or assigns through self, dotted bases other than importedmodule.Class are outside the agreed subset (py_exec = None). '
+                 'Trusted: Coq kernel, translator gen_c03.py, extraction + driver, harness and pretty-printer, cleandoc oracle, and the import '
+                 'annotations the harness derives from the model result of the imported module.'),
+        'technique': 'Coq proof (simulation invariant between the builder walk and CPython binding semantics over scope chains; induction on '
+                     'literal values) + regenerated tables + two-sided correspondence + differential oracle against CPython',
     }
 
     # ------------------------------------------------------------------ case streams
